@@ -974,7 +974,17 @@ where
   fn poll(mut self: Pin<&mut Self>, cx: &mut Context<'_>) -> Poll<Self::Output> {
     match self.writer_command.take() {
       Some(wc) => {
-        match self.writer.cc_upload.try_send(wc) {
+        // If the queue is full, store our waker and then try once more: the Writer
+        // may have made room between our failed attempt and storing the waker. In
+        // that case it has already done its waking, and nobody would wake us.
+        let send_result = match self.writer.cc_upload.try_send(wc) {
+          Err(TrySendError::Full(wc)) => {
+            *self.writer.cc_upload_waker.lock().unwrap() = Some(cx.waker().clone());
+            self.writer.cc_upload.try_send(wc)
+          }
+          other => other,
+        };
+        match send_result {
           Ok(()) => {
             self.writer.refresh_manual_liveliness();
             Poll::Ready(Ok(SampleIdentity {
@@ -985,7 +995,6 @@ where
           Err(TrySendError::Full(wc)) => {
             #[cfg(rustdds_verif)]
             crate::verif_hooks::sched::yield_point("dw.write_full");
-            *self.writer.cc_upload_waker.lock().unwrap() = Some(cx.waker().clone());
             if Instant::now() < self.timeout_instant {
               // Put our command back
               self.writer_command = Some(wc);
